@@ -203,6 +203,7 @@ func intern(t *Term) *Term {
 		}
 	}
 	if len(t.Bound) > 0 {
+		t.closed = false
 		t.closed = len(freeBound(t)) == 0
 	} else {
 		for _, a := range t.Args {
@@ -217,9 +218,8 @@ func intern(t *Term) *Term {
 
 func freeBound(t *Term) map[*Term]bool {
 	out := map[*Term]bool{}
-	seen := map[*Term]bool{}
-	var walk func(t *Term, bound map[*Term]bool)
-	walk = func(t *Term, bound map[*Term]bool) {
+	var walk func(t *Term, bound map[*Term]bool, seen map[*Term]bool)
+	walk = func(t *Term, bound map[*Term]bool, seen map[*Term]bool) {
 		if t.closed && t.id != 0 {
 			return
 		}
@@ -229,6 +229,10 @@ func freeBound(t *Term) map[*Term]bool {
 			}
 			return
 		}
+		if seen[t] {
+			return
+		}
+		seen[t] = true
 		if len(t.Bound) > 0 {
 			nb := map[*Term]bool{}
 			for k := range bound {
@@ -237,19 +241,42 @@ func freeBound(t *Term) map[*Term]bool {
 			for _, b := range t.Bound {
 				nb[b] = true
 			}
+			ns := map[*Term]bool{}
 			for _, a := range t.Args {
-				walk(a, nb)
+				walk(a, nb, ns)
 			}
 			return
 		}
-		if len(bound) == 0 {
-			if seen[t] {
-				return
+		for _, a := range t.Args {
+			walk(a, bound, seen)
+		}
+	}
+	walk(t, map[*Term]bool{}, map[*Term]bool{})
+	return out
+}
+
+func freeBoundSlow(t *Term) map[*Term]bool {
+	out := map[*Term]bool{}
+	var walk func(t *Term, bound map[*Term]bool)
+	walk = func(t *Term, bound map[*Term]bool) {
+		if t.Op == OpBound {
+			if !bound[t] {
+				out[t] = true
 			}
-			seen[t] = true
+			return
+		}
+		nb := bound
+		if len(t.Bound) > 0 {
+			nb = map[*Term]bool{}
+			for k := range bound {
+				nb[k] = true
+			}
+			for _, b := range t.Bound {
+				nb[b] = true
+			}
 		}
 		for _, a := range t.Args {
-			walk(a, bound)
+			walk(a, nb)
 		}
 	}
 	walk(t, map[*Term]bool{})
@@ -914,11 +941,13 @@ func reparamAll(bound []*Term, body *Term) []qversion {
 func findIndexIte(body *Term) *Term {
 	var found *Term
 	seen := map[*Term]bool{}
+	seenIdx := map[*Term]bool{}
 	var inIdx func(t *Term)
 	inIdx = func(t *Term) {
-		if found != nil || t.closed {
+		if found != nil || t.closed || seenIdx[t] {
 			return
 		}
+		seenIdx[t] = true
 		if t.Op == OpIte && t.Sort == sortInt && !t.Args[0].closed {
 			found = t
 			return
@@ -1048,18 +1077,24 @@ func reparam(bound []*Term, body *Term) ([]*Term, *Term) {
 }
 
 func occurs(t, v *Term) bool {
-	if t == v {
-		return true
-	}
-	if t.closed {
-		return false
-	}
-	for _, a := range t.Args {
-		if occurs(a, v) {
+	seen := map[*Term]bool{}
+	var rec func(t *Term) bool
+	rec = func(t *Term) bool {
+		if t == v {
 			return true
 		}
+		if t.closed || seen[t] {
+			return false
+		}
+		seen[t] = true
+		for _, a := range t.Args {
+			if rec(a) {
+				return true
+			}
+		}
+		return false
 	}
-	return false
+	return rec(t)
 }
 func mkExists(bound []*Term, body *Term) *Term { return mkQuant(OpExists, bound, body) }
 
@@ -1398,6 +1433,9 @@ func (s *Script) Assert(t *Term) {
 			s.Assert(a)
 		}
 		return
+	}
+	if !t.closed {
+		panic(fmt.Sprintf("Assert: free bound variable: %s", truncate(t.String(), 500)))
 	}
 	s.prepare(t)
 	s.sb.WriteString("(assert ")
